@@ -99,3 +99,146 @@ def _call_count_errors(inp):
 
 CONTRACTS[ER + ":count_errors"].gen = _gen_count_errors
 CONTRACTS[ER + ":count_errors"].call = _call_count_errors
+
+
+# ====================================================================== game_plan_length (C08, C13)
+PL = "moptipyapps.ttp.plan_length"
+# the tournament model of the statement, as recursion over the days of one team
+spec("venue(y, team, d)", "(-y[d, team] - 1) if y[d, team] < 0 else team", ptypes=["arr2", "int", "int"])
+spec("loc(y, team, d)", "team if d <= 0 else (loc(y, team, d - 1) if y[d - 1, team] == 0 else venue(y, team, d - 1))",
+     ptypes=["arr2", "int", "int"])
+spec("tlen(y, dist, bye, team, d)", "0 if d <= 0 else tlen(y, dist, bye, team, d - 1) + (bye if y[d - 1, team] == 0 else"
+     " (0 if loc(y, team, d - 1) == venue(y, team, d - 1) else dist[loc(y, team, d - 1), venue(y, team, d - 1)]))",
+     ptypes=["arr2", "arr2", "int", "int", "int"])
+spec("home_leg(y, dist, team, D)", "0 if loc(y, team, D) == team else dist[loc(y, team, D), team]",
+     ptypes=["arr2", "arr2", "int", "int"])
+spec("total_len(y, dist, bye, D, t)", "0 if t <= 0 else total_len(y, dist, bye, D, t - 1) + tlen(y, dist, bye, t - 1, D)"
+     " + home_leg(y, dist, t - 1, D)", ptypes=["arr2", "arr2", "int", "int", "int"])
+
+contract(
+    PL + ":game_plan_length",
+    props="C08",
+    params={"y": A2("Y"), "distances": A2("DM"), "bye_penalty": INT},
+    ghosts={"n": INT, "D": INT},
+    returns=INT,
+    i64=False,
+    requires=[
+        "n >= 1 and D >= 0 and shape(y, 0) == D and shape(y, 1) == n and shape(distances, 0) == n and shape(distances, 1) == n",
+        "forall(d, 0, D, forall(t, 0, n, -n <= y[d, t] and y[d, t] <= n))",
+        "forall(a, 0, n, forall(b, 0, n, 0 <= distances[a, b]))",
+        "bye_penalty >= 0 and Y_lo < 0 and Y_hi <= 2**63 - 1 and DM_hi <= 2**63 - 1",
+    ],
+    loops={
+        "0": Loop(inv=[
+            tag("C08 C13", "dims", "days == D and teams == n"),
+            tag("C08", "total", "length == total_len(y, distances, bye_penalty, D, team)"),
+            tag("C08", "nonneg", "0 <= length"),
+        ]),
+        "0.0": Loop(inv=[
+            tag("C08 C13", "location", "current_location == loc(y, team, day) and 0 <= current_location and current_location < n"
+                " and 0 <= team and team < n"),
+            tag("C08", "partial", "length == total_len(y, distances, bye_penalty, D, team) + tlen(y, distances, bye_penalty, team, day)"),
+            tag("C08", "nonneg", "0 <= length"),
+        ]),
+    },
+    ensures=[
+        tag("C08", "tournament-model", "result == total_len(y, distances, bye_penalty, D, n)"),
+        tag("C08", "nonneg", "0 <= result"),
+    ],
+    must_fail=["result == 0"],
+)
+
+
+def _gen_gpl(rng):
+    from bounded.ttp_errors import day_patterns
+    n = rng.choice([2, 4, 6])
+    D = rng.randint(0, 7)
+    y = np.zeros((D, n), np.int8)
+    pats = day_patterns(n)
+    for d in range(D):
+        if rng.random() < 0.6:
+            y[d, :] = pats[rng.randrange(len(pats))]
+        else:
+            for t in range(n):
+                y[d, t] = rng.randint(-n, n)
+    mx = rng.choice([1, 7, 1000])
+    dist = np.array([[0 if a == b else rng.randint(0, mx) for b in range(n)] for a in range(n)],
+                    dtype=rng.choice([np.int16, np.int32, np.int64]))
+    return {"y": y, "distances": dist, "bye_penalty": 2 * int(dist.max()) + 1, "n": n, "D": D}
+
+
+def _call_gpl(inp):
+    from moptipyapps.ttp.plan_length import game_plan_length
+    return int(game_plan_length(inp["y"], inp["distances"], inp["bye_penalty"]))
+
+
+CONTRACTS[PL + ":game_plan_length"].gen = _gen_gpl
+CONTRACTS[PL + ":game_plan_length"].call = _call_gpl
+
+
+# ====================================================================== map_games (C15, C13)
+GE = "moptipyapps.ttp.game_encoding"
+spec("plan_ok(y, d, t, n)", "-n <= y[d, t] and y[d, t] <= n and y[d, t] != t + 1 and y[d, t] != -(t + 1)"
+     " and implies(y[d, t] > 0, y[d, y[d, t] - 1] == -(t + 1)) and implies(y[d, t] < 0, y[d, -y[d, t] - 1] == t + 1)", ret="bool")
+spec("blocked(y, d, a, b)", "y[d, a] != 0 or y[d, b] != 0", ret="bool")
+
+contract(
+    GE + ":map_games",
+    props="C15",
+    params={"x": A1("X"), "y": A2("Y", uninit=True)},
+    ghosts={"n": INT, "D": INT},
+    requires=[
+        "n >= 2 and D >= 0 and shape(y, 0) == D and shape(y, 1) == n",
+        "forall(k, 0, len(x), 0 <= x[k])",
+        "Y_lo <= -n and Y_hi >= n and Y_hi <= 2**63 - 1 and X_hi <= 2**63 - 1",
+    ],
+    modifies=["y"],
+    loops={
+        "0": Loop(index="k", inv=[
+            tag("C15 C13", "dims", "days == D and div == n - 1 and shape(y, 1) == n"),
+            tag("C15 C13", "written", "forall(d, 0, D, forall(t, 0, n, written(y, d, t)))"),
+            tag("C15", "consistent", "forall(d, 0, D, forall(t, 0, n, plan_ok(y, d, t, n)))"),
+        ]),
+        "0.0": Loop(inv=[
+            tag("C15 C13", "teams", "0 <= home_idx and home_idx < n and 0 <= away_idx and away_idx < n and home_idx != away_idx"),
+            tag("C15", "unchanged-while-searching", "same_array(y, at_loop(y))"),
+            tag("C15 C13", "written", "forall(d, 0, D, forall(t, 0, n, written(y, d, t)))"),
+            tag("C15", "earlier-days-blocked", "forall(d, 0, day, blocked(y, d, home_idx, away_idx))"),
+        ]),
+    },
+    asserts={
+        "after if #0": [tag("C15", "decode-teams", "0 <= home_idx and home_idx < n and 0 <= away_idx and away_idx < n"
+                            " and home_idx != away_idx")],
+        "after assign y[day,away_idx] #0": [
+            tag("C15", "earliest-free-day", "forall(d, 0, day, blocked(at_loop(y), d, home_idx, away_idx))"
+                " and not blocked(at_loop(y), day, home_idx, away_idx)"),
+            tag("C15", "game-placed", "y[day, home_idx] == away_idx + 1 and y[day, away_idx] == -(home_idx + 1)"),
+            tag("C15", "only-two-cells", "forall(d, 0, D, forall(t, 0, n, implies(not (d == day and (t == home_idx or t == away_idx)),"
+                " y[d, t] == at_loop(y)[d, t])))"),
+        ],
+    },
+    ensures=[
+        tag("C15", "consistent-no-self-play-in-range", "forall(d, 0, D, forall(t, 0, n, plan_ok(y, d, t, n)))"),
+    ],
+)
+
+
+def _gen_map_games(rng):
+    n = rng.choice([2, 3, 4, 5, 6])
+    rounds = rng.choice([1, 2, 3])
+    D = rng.choice([(n - 1) * rounds, n * rounds, max(0, (n - 1) * rounds - 1)])
+    games = [g for g in range(n * (n - 1))] * rounds
+    rng.shuffle(games)
+    games = games[:rng.randint(0, len(games))] if rng.random() < 0.3 else games
+    y = np.full((D, n), 55, np.int8)
+    return {"x": np.array(games, dtype=rng.choice([np.int16, np.uint8, np.int64])), "y": y, "n": n, "D": D}
+
+
+def _call_map_games(inp):
+    from moptipyapps.ttp.game_encoding import map_games
+    map_games(inp["x"], inp["y"])
+    return None
+
+
+CONTRACTS[GE + ":map_games"].gen = _gen_map_games
+CONTRACTS[GE + ":map_games"].call = _call_map_games
